@@ -68,7 +68,10 @@ partial def tokenize (cs : List Char) (acc : Array T) : Except String (Array T) 
       | none => .error "string literal"
     else
       let two := match rest with | d :: _ => String.ofList [c, d] | [] => ""
-      if ["==", "!=", "<=", ">=", "+=", "-=", "*=", "%="].contains two then
+      let three := match rest with | d :: e :: _ => String.ofList [c, d, e] | _ => ""
+      if three == "//=" then
+        tokenize (rest.drop 2) (acc.push (.op three))
+      else if ["==", "!=", "<=", ">=", "+=", "-=", "*=", "%=", "//"].contains two then
         tokenize (rest.drop 1) (acc.push (.op two))
       else if "+-*%<>()[]{},:.=".toList.contains c then
         tokenize rest (acc.push (.op (String.singleton c)))
@@ -158,6 +161,7 @@ partial def pTerm : P E := do
   repeat
     if (← isOp "*") then advance; let b ← pFactor; a := .bin "*" a b
     else if (← isOp "%") then advance; let b ← pFactor; a := .bin "%" a b
+    else if (← isOp "//") then advance; let b ← pFactor; a := .bin "//" a b
     else break
   return a
 partial def pFactor : P E := do
@@ -299,8 +303,8 @@ def parseStmt (line : String) : Except String Stmt := do
   | .name n :: .op "=" :: rest =>
     if keywords.contains n then throw "keyword" else return .assign n (← parseExprToks rest)
   | .name n :: .op o :: rest =>
-    if ["+=", "-=", "*=", "%="].contains o then
-      if keywords.contains n then throw "keyword" else return .aug n (String.ofList [o.toList.head!]) (← parseExprToks rest)
+    if ["+=", "-=", "*=", "%=", "//="].contains o then
+      if keywords.contains n then throw "keyword" else return .aug n (String.ofList o.toList.dropLast) (← parseExprToks rest)
     else
       -- subscript assignment `n[i] = e` / `n[i] += e`, mutator call, or expression statement
       let toks := ts.toList
@@ -313,7 +317,7 @@ def parseStmt (line : String) : Except String Stmt := do
           | .op o =>
             if o == "(" || o == "[" || o == "{" then findAssign rest (depth + 1) (t :: pre)
             else if o == ")" || o == "]" || o == "}" then findAssign rest (depth - 1) (t :: pre)
-            else if depth == 0 && ["=", "+=", "-=", "*=", "%="].contains o then some (pre.reverse, o, rest)
+            else if depth == 0 && ["=", "+=", "-=", "*=", "%=", "//="].contains o then some (pre.reverse, o, rest)
             else findAssign rest depth (t :: pre)
           | _ => findAssign rest depth (t :: pre)
       match findAssign toks 0 [] with
@@ -325,7 +329,7 @@ def parseStmt (line : String) : Except String Stmt := do
             let i ← parseExprToks mid.dropLast
             let e ← parseExprToks rhs
             if aop == "=" then return .setItem n' i e
-            else return .augItem n' i (String.ofList [aop.toList.head!]) e
+            else return .augItem n' i (String.ofList aop.toList.dropLast) e
           | _ => throw "assignment target"
         | _ => throw "assignment target"
       | none =>
